@@ -59,7 +59,7 @@ def _passed_caps(ctx, f, args):
     return out
 
 
-def rule_M8(ctx, pair=(NS + 'Geodesic', NS + 'GeodesicExact')):
+def rule_M8(ctx, pair=(NS + 'Geodesic', NS + 'GeodesicExact'), exhaustive=False):
     res = RuleResult('M8', 'sibling line factories: for every set of requested capabilities and both values of arcmode, '
                            'Geodesic and GeodesicExact pass the same named capabilities to the line they construct')
     A, B = pair
@@ -80,7 +80,7 @@ def rule_M8(ctx, pair=(NS + 'Geodesic', NS + 'GeodesicExact')):
         npairs += 1
         bools = [p['name'] for p in f1.params if p['t'].replace('const ', '') == 'bool']
         bad = None
-        for r in (0, 1, 2, len(NAMES)):
+        for r in (range(len(NAMES) + 1) if exhaustive else (0, 1, 2, len(NAMES))):
             for sub in itertools.combinations(NAMES, r):
                 for bv in itertools.product([True, False], repeat=len(bools)):
                     got = []
